@@ -144,7 +144,7 @@ class Ctx:
         ev = {"property_id": self.pid, "tier": self.tier, "seed": self.seed, "level": self.level,
               "coverage": cov, "assumptions": self.assumptions, "wall_s": round(wall, 2),
               "violations": len(self.violations)}
-        d = os.path.join(VERIF, "evidence")
+        d = os.environ.get("VERIF_EVIDENCE_DIR") or os.path.join(VERIF, "evidence")   # (scratch runs against seeded trees)
         os.makedirs(d, exist_ok=True)
         with open(os.path.join(d, self.pid + ".json"), "w") as fh:
             json.dump(ev, fh, indent=1, default=str)
